@@ -399,8 +399,15 @@ func init() {
 		// ---------------- strings / bytes / hex / fmt
 		m["bytes.Equal"] = func(ex *Exec, fr *frame, cc *ssa.CallCommon, a []Value) Value { return VBool{ex.bytesEq(a[0], a[1])} }
 		m["bytes.Compare"] = func(ex *Exec, fr *frame, cc *ssa.CallCommon, a []Value) Value {
-			x, y := ex.atomTerm(a[0]), ex.atomTerm(a[1])
-			return VInt{Ite(Lt(x, y), IntC(-1), Ite(Gt(x, y), IntC(1), IntC(0)))}
+			sa, oka := a[0].(VStr)
+			sb, okb := a[1].(VStr)
+			if oka && okb && sa.Atom != nil && sb.Atom != nil {
+				x, y := *sa.Atom, *sb.Atom
+				return VInt{Ite(Lt(x, y), IntC(-1), Ite(Gt(x, y), IntC(1), IntC(0)))}
+			}
+			lt := ex.nameT(ex.lexLess(a[0], a[1]))
+			gt := ex.nameT(ex.lexLess(a[1], a[0]))
+			return VInt{Ite(lt, IntC(-1), Ite(gt, IntC(1), IntC(0)))}
 		}
 		m["bytes.HasPrefix"] = func(ex *Exec, fr *frame, cc *ssa.CallCommon, a []Value) Value {
 			x, ok1 := ex.byteTerms(a[0])
